@@ -1,0 +1,15 @@
+//go:build verif
+
+// Contracts for package store, checked by /verif/govc. Comments only.
+
+package store
+
+//@ ghost $savedData scalar Int
+
+//@ func interface (github.com/Flowpack/prunner/store.DataStore).Save
+//@   ensures [saved] res == nil ==> $savedData == addr(data)
+//@   modifies $savedData
+
+//@ func interface (github.com/Flowpack/prunner/store.DataStore).Load
+//@   ensures [loaded] res1 == nil ==> res0 != nil
+//@   modifies nothing
